@@ -45,6 +45,9 @@ STRS = [
 # strings whose ends (or whole content) a "tolerant" validator would alter
 EDGE_STRS = [" lead", "trail ", "line\n", "\tindented\n    code\n", " 7 ", "\u00a0nbsp\u00a0", "x\u2028", "", "  ", "\r\n",
              "1", "true", "null", "\U0001F600", "\u3000wide"]
+# what a member of a type the translator does not know most plausibly carries on the wire
+WIRE_SCALARS = ["2025-01-01T00:00:00Z", "2025-01-12T15:00:58+02:00", "2025-06-18", "15:00:58", "P1D", "1736694058", "3.14",
+                "550e8400-e29b-41d4-a716-446655440000", "https://example.com/x", "dGVzdA=="]
 INTS = [0, 1, 0, 1, -1, 2, 7, 42, 100, 2**31, 2**53 + 1, -(2**63), 10**20]
 # falsy value(s) of each leaf kind / container, and type twins that Python equates (only where the
 # declared type admits them: 7.0 for an int or float member, "7"/"true"/"0"/"" for a str member)
@@ -266,6 +269,12 @@ class Gen:
             return self.value(m, rng, depth, ctx)
         if k == "ref":
             return self.obj(t["cls"], rng, depth=depth + 1, extras=ctx.get("sib", "random"))
+        if k == "unknown":
+            # a declared type outside the translator's subset (datetime, Decimal, an enum, …): what spec-valid
+            # traffic can carry in a JSON member — a string (ISO 8601 date-times among them), a number, a
+            # bool, an object, an array; never null at member level
+            return rng.choice(WIRE_SCALARS + [rng.choice(STRS), rng.choice(INTS), rng.choice(FLOATS), True, False,
+                                              any_object(rng, depth + 1), [any_value(rng, depth + 1) for _ in range(rng.randrange(0, 3))]])
         raise ValueError(k)
 
     def field_value(self, cid, f, rng, depth, extras):
@@ -379,7 +388,7 @@ class Gen:
         """the smallest value of type `t` that carries `sval` at a `str` (or `leaf`) position reachable
         without entering another model class (None when `t` has no such position)"""
         k = t["k"]
-        if k == leaf:
+        if k == leaf or (k == "unknown" and leaf in ("str", "any")):
             return sval
         if leaf == "empty" and k in ("list", "dict"):
             return [] if k == "list" else {}
